@@ -49,15 +49,18 @@ import (
 type c26Call struct {
 	Round uint64
 	K     int
+	// insertion alphabet: the submitted snapshots by index into the round's
+	// list, in the order they are handed over (Sel != nil)
+	Sel []int
 }
 
 // call alphabet: round 0 = genesis round (two snapshots), rounds 1..3 carry
 // three snapshots each; K is the length of the submitted prefix (0 = empty).
 var c26Calls = []c26Call{
-	{0, 1}, {0, 2},
-	{1, 0}, {1, 1}, {1, 2}, {1, 3},
-	{2, 0}, {2, 1}, {2, 2}, {2, 3},
-	{3, 0}, {3, 1}, {3, 2}, {3, 3},
+	{Round: 0, K: 1}, {Round: 0, K: 2},
+	{Round: 1, K: 0}, {Round: 1, K: 1}, {Round: 1, K: 2}, {Round: 1, K: 3},
+	{Round: 2, K: 0}, {Round: 2, K: 1}, {Round: 2, K: 2}, {Round: 2, K: 3},
+	{Round: 3, K: 0}, {Round: 3, K: 1}, {Round: 3, K: 2}, {Round: 3, K: 3},
 }
 
 const (
@@ -98,6 +101,7 @@ type c26Cfg struct {
 	Rounds [4][]*common.SnapshotWork
 	Credit [4]bool
 	Names  map[crypto.Hash]string
+	Ins    bool // insertion alphabet (c26InsCalls) instead of the prefix alphabet
 }
 
 type c26Fix struct {
@@ -169,6 +173,82 @@ func c26NewCfg(f *c26Fix, plan int, layout [3]int) *c26Cfg {
 	for r := 0; r <= 3; r++ {
 		cfg.Credit[r] = p.Forced || first(r) == first(r+1)
 	}
+	return cfg
+}
+
+// Insertion alphabet (second family of fixtures, cfg.Ins): round 1 has FOUR
+// snapshots with pairwise distinct signer sets, round 2 two. A call submits any
+// subset of the round in timestamp order (what ReadSnapshotWorksForNodeRound
+// yields when snapshots of a round become known out of order), so that a grown
+// re-submission inserts its new members before, between and after the ones
+// already submitted; every subset of two or more is also submitted in reverse
+// order (a permuted re-submission of the same set).
+var c26InsCalls = func() []c26Call {
+	var out []c26Call
+	for mask := 0; mask < 16; mask++ {
+		sel := []int{}
+		for i := 0; i < 4; i++ {
+			if mask&(1<<i) != 0 {
+				sel = append(sel, i)
+			}
+		}
+		out = append(out, c26Call{Round: 1, Sel: sel})
+		if len(sel) >= 2 {
+			rev := make([]int, len(sel))
+			for i, v := range sel {
+				rev[len(sel)-1-i] = v
+			}
+			out = append(out, c26Call{Round: 1, Sel: rev})
+		}
+	}
+	for _, sel := range [][]int{{}, {0}, {1}, {0, 1}} {
+		out = append(out, c26Call{Round: 2, Sel: sel})
+	}
+	return out
+}()
+
+// c26NCalls: prefix calls first (the crash part and the pure enumerations use
+// only those), then the insertion calls, then the fixture selectors.
+func c26NCalls() int { return len(c26Calls) + len(c26InsCalls) }
+
+func c26CallAt(e int) c26Call {
+	if e < len(c26Calls) {
+		return c26Calls[e]
+	}
+	return c26InsCalls[e-len(c26Calls)]
+}
+
+func (cfg *c26Cfg) pick(cl c26Call) []*common.SnapshotWork {
+	if cl.Sel == nil {
+		return cfg.Rounds[cl.Round][:cl.K:cl.K]
+	}
+	out := make([]*common.SnapshotWork, 0, len(cl.Sel))
+	for _, i := range cl.Sel {
+		out = append(out, cfg.Rounds[cl.Round][i])
+	}
+	return out
+}
+
+// c26NewInsCfg: all snapshots on one credited day; snapshot j of round 1 carries
+// menu entry perm[j] (a permutation: four different signer sets).
+func c26NewInsCfg(f *c26Fix, perm [4]int) *c26Cfg {
+	cfg := &c26Cfg{Ins: true, Names: map[crypto.Hash]string{}}
+	cfg.Name = fmt.Sprintf("cfg:insertion/L%d%d%d%d", perm[0], perm[1], perm[2], perm[3])
+	cfg.Rounds[0] = f.Genesis
+	for i, n := range []int{4, 2} {
+		for j := 0; j < n; j++ {
+			w := &common.SnapshotWork{
+				Hash:      crypto.Blake3Hash([]byte(fmt.Sprintf("verif-c26 insertion round %d index %d", i+1, j))),
+				Timestamp: c26Ts(-int64(100-10*i-j) * c26Sec),
+			}
+			for _, s := range c26Menu[perm[(j+i)%4]] {
+				w.Signers = append(w.Signers, f.Nodes[s])
+			}
+			cfg.Rounds[i+1] = append(cfg.Rounds[i+1], w)
+			cfg.Names[w.Hash] = fmt.Sprintf("r%ds%d", i+1, j)
+		}
+	}
+	cfg.Credit = [4]bool{false, true, true, true}
 	return cfg
 }
 
@@ -573,10 +653,33 @@ func (x *c26Inst) oracle(stage, after string, report func(key, desc string)) {
 
 // call executes one WriteRoundWork event. Returns false for a disabled call.
 func (x *c26Inst) call(e int, stage string, quiet bool, report func(key, desc string)) bool {
-	cl := c26Calls[e]
-	works := x.cfg.Rounds[cl.Round][:cl.K:cl.K]
+	cl := c26CallAt(e)
+	works := x.cfg.pick(cl)
 	credit := x.cfg.Credit[cl.Round]
 	class, enabled := x.ref.classify(cl.Round, works, credit)
+	// where the new members of a grown set sit relative to the recorded ones,
+	// and whether a re-submission lists the recorded ones in another order
+	shape := ""
+	if enabled && !quiet && cl.Round == x.ref.Off && x.ref.HasRec && len(x.ref.Seen) > 0 {
+		var pos []bool // per submitted snapshot: already recorded
+		sorted := true
+		for i, w := range works {
+			pos = append(pos, x.ref.Seen[w.Hash])
+			sorted = sorted && (i == 0 || works[i-1].Timestamp < w.Timestamp)
+		}
+		if !sorted {
+			shape = ":permuted"
+		} else if n := len(pos); n > len(x.ref.Seen) {
+			switch {
+			case !pos[0] && pos[n-1]:
+				shape = ":new-at-front"
+			case pos[0] && pos[n-1]:
+				shape = ":new-in-middle"
+			case !pos[0] && !pos[n-1]:
+				shape = ":new-at-both-ends"
+			}
+		}
+	}
 	var err error
 	p, site := verifmc.CatchSite(func() { err = x.L.Store.WriteRoundWork(x.f.P, cl.Round, works, credit) })
 	name := c26EventName(x.all, e)
@@ -603,14 +706,20 @@ func (x *c26Inst) call(e int, stage string, quiet bool, report func(key, desc st
 	x.ref.apply(cl.Round, works, credit)
 	if !quiet {
 		x.c.Outcome("call:" + class)
+		if shape != "" {
+			x.c.Outcome("call:" + class + shape)
+		}
 		x.oracle(stage, name, report)
 	}
 	return true
 }
 
 func c26EventName(all []*c26Cfg, e int) string {
-	if e >= len(c26Calls) {
-		return all[e-len(c26Calls)].Name
+	if e >= c26NCalls() {
+		return all[e-c26NCalls()].Name
+	}
+	if cl := c26CallAt(e); cl.Sel != nil {
+		return fmt.Sprintf("round%d%v", cl.Round, cl.Sel)
 	}
 	return fmt.Sprintf("round%d[:%d]", c26Calls[e].Round, c26Calls[e].K)
 }
@@ -624,11 +733,11 @@ func (x *c26Inst) bfsApply(e int, replaying bool, report func(key, desc string))
 		x.pending = append(x.pending, e)
 		return true
 	}
-	if e >= len(c26Calls) {
+	if e >= c26NCalls() {
 		if len(x.pending) > 0 || x.cfg != nil {
 			return false
 		}
-		x.setup(x.all[e-len(c26Calls)], "")
+		x.setup(x.all[e-c26NCalls()], "")
 		x.oracle("bfs", "fixture setup", report)
 		return true
 	}
@@ -636,7 +745,11 @@ func (x *c26Inst) bfsApply(e int, replaying bool, report func(key, desc string))
 		if len(x.pending) == 0 {
 			return false
 		}
-		x.setup(x.all[x.pending[0]-len(c26Calls)], "")
+		// each fixture family has its own call alphabet
+		if cfg := x.all[x.pending[0]-c26NCalls()]; cfg.Ins != (c26CallAt(e).Sel != nil) {
+			return false
+		}
+		x.setup(x.all[x.pending[0]-c26NCalls()], "")
 		for _, pe := range x.pending[1:] {
 			if !x.call(pe, "bfs", true, func(string, string) {}) {
 				x.c.Require(false, "replay divergence in %s at %s", x.cfg.Name, c26EventName(x.all, pe))
@@ -929,7 +1042,7 @@ func c26CrashCase(c *verifmc.Check, f *c26Fix, all []*c26Cfg, pt c26Point, mode 
 func TestMC_C26(t *testing.T) {
 	c := verifmc.Start(t, "C26", "model_checking")
 	defer c.Finish()
-	c.SetRule("BFS with state deduplication over all histories [fixture, call, call, ...]: fixture = (day/credit plan, signer layout) of one proposer P, three other signers and rounds 1..3 of three snapshots each around a day boundary, plus the two signer-less genesis snapshots of round 0; call = WriteRoundWork(P, round, first k snapshots of the round, credit[round]) for round 0..3, k 0..3. Calls that hit a panic of the function itself (round > offset+1, shrinking set, two days in one credited fresh batch) are executed, must panic and are not transitions; stale calls (round < offset) are transitions. State = fixture + reference (offset, submitted set, credited set) + digest of all WORK* records. Oracle in every state: ListNodeWorks(P,A,B,C,bystander) on 5 days = counters derived from the SET of snapshots handed to a non-stale credited call. Crash part: for every reference state reachable with <= n calls, on an on-disk ledger: (a, thorough only, subsumed by b) close and reopen, (b) every enabled call attempted with its commit refused through badger.VerifHook, then close and reopen, (c) per enabled call: only its first commit allowed (a crash point inside the call exists only if it is not one transaction); then the AggregateMintWork loop (ReadWorkOffset, ReadSnapshotWorksForNodeRound, WriteRoundWork for offset..3) with the oracle after every step. Concurrent part: 5 scenarios of 2-3 threads (different proposers sharing signers on one day, a proposer resubmitting next to another proposer, two threads of one proposer, two rounds over the day boundary), each thread = WriteRoundWork calls with the kernel's retry on badger.ErrConflict; all schedules of the Badger begin/commit points up to the preemption bound, each on a fresh ledger; counters and offsets compared with the same sequential reference")
+	c.SetRule("BFS with state deduplication over all histories [fixture, call, call, ...] for two fixture families. Insertion family: round 1 = four snapshots with pairwise distinct signer sets (menu permuted), round 2 = two, one credited day; call = WriteRoundWork(P, round, any subset of the round in timestamp order, or any subset of >=2 in reverse order), so grown re-submissions insert new members before / between / after the recorded ones and the same set is re-submitted permuted. Prefix family: fixture = (day/credit plan, signer layout) of one proposer P, three other signers and rounds 1..3 of three snapshots each around a day boundary, plus the two signer-less genesis snapshots of round 0; call = WriteRoundWork(P, round, first k snapshots of the round, credit[round]) for round 0..3, k 0..3. Calls that hit a panic of the function itself (round > offset+1, shrinking set, two days in one credited fresh batch) are executed, must panic and are not transitions; stale calls (round < offset) are transitions. State = fixture + reference (offset, submitted set, credited set) + digest of all WORK* records. Oracle in every state: ListNodeWorks(P,A,B,C,bystander) on 5 days = counters derived from the SET of snapshots handed to a non-stale credited call. Crash part: for every reference state reachable with <= n calls, on an on-disk ledger: (a, thorough only, subsumed by b) close and reopen, (b) every enabled call attempted with its commit refused through badger.VerifHook, then close and reopen, (c) per enabled call: only its first commit allowed (a crash point inside the call exists only if it is not one transaction); then the AggregateMintWork loop (ReadWorkOffset, ReadSnapshotWorksForNodeRound, WriteRoundWork for offset..3) with the oracle after every step. Concurrent part: 5 scenarios of 2-3 threads (different proposers sharing signers on one day, a proposer resubmitting next to another proposer, two threads of one proposer, two rounds over the day boundary), each thread = WriteRoundWork calls with the kernel's retry on badger.ErrConflict; all schedules of the Badger begin/commit points up to the preemption bound, each on a fresh ledger; counters and offsets compared with the same sequential reference")
 	c.Assume("credit is fixed per round (kernel rule day(first(r)) == day(first(r+1)), or always true as in the mainnet fork-batch exception); every non-genesis snapshot is signed by its proposer; snapshot timestamps within a chain are distinct; a refused Badger commit leaves no trace (checked) and a closed+reopened on-disk store stands for a crashed process (Badger durability itself is trusted); dedup key contains every record WriteRoundWork reads")
 
 	f := c26NewFix(c)
@@ -952,7 +1065,20 @@ func TestMC_C26(t *testing.T) {
 			cfgs = append(cfgs, c26NewCfg(f, p, l))
 		}
 	}
-	c.Set("fixtures", len(cfgs))
+	// insertion fixtures: the four menu entries permuted over the four
+	// snapshots of round 1 (thorough: all 24 permutations)
+	var ins []*c26Cfg
+	verifmc.Permutations(4, func(pm []int) {
+		perm := [4]int{pm[0], pm[1], pm[2], pm[3]}
+		quick := map[[4]int]bool{{0, 1, 2, 3}: true, {3, 2, 1, 0}: true, {1, 2, 3, 0}: true, {2, 3, 0, 1}: true, {3, 0, 1, 2}: true, {1, 0, 3, 2}: true}
+		if c.Thorough() || quick[perm] {
+			ins = append(ins, c26NewInsCfg(f, perm))
+		}
+	})
+	all := append(append([]*c26Cfg{}, cfgs...), ins...)
+	c.Set("fixtures", len(all))
+	c.Set("insertion_fixtures", len(ins))
+	c.Set("insertion_call_alphabet", len(c26InsCalls))
 	c.Set("call_alphabet", len(c26Calls))
 
 	// E3 first: its scheduling hook and the crash injector below share the seam
@@ -981,9 +1107,9 @@ func TestMC_C26(t *testing.T) {
 	pool := &c26Pool{c: c, slots: map[int]*c26Slot{}}
 	defer pool.closeAll()
 	b := &verifmc.BFS[*c26Inst]{
-		C: c, NumEvents: len(c26Calls) + len(cfgs), MaxDepth: depth + 1,
-		EventName: func(e int) string { return c26EventName(cfgs, e) },
-		New:       func(w int) *c26Inst { return &c26Inst{c: c, f: f, all: cfgs, pool: pool, worker: w} },
+		C: c, NumEvents: c26NCalls() + len(all), MaxDepth: depth + 1,
+		EventName: func(e int) string { return c26EventName(all, e) },
+		New:       func(w int) *c26Inst { return &c26Inst{c: c, f: f, all: all, pool: pool, worker: w} },
 		Apply: func(x *c26Inst, e int, replaying bool, report func(key, desc string)) bool {
 			return x.bfsApply(e, replaying, report)
 		},
@@ -999,9 +1125,12 @@ func TestMC_C26(t *testing.T) {
 	if !exhausted && !c.Expired("bfs") {
 		c.Capped(fmt.Sprintf("BFS frontier not empty after %d calls", depth))
 	}
-	c.Require(states > int64(40*len(cfgs)) && trans > int64(300*len(cfgs)), "vacuous BFS: %d states %d transitions for %d fixtures", states, trans, len(cfgs))
-	for _, o := range []string{"call:stale-noop", "call:repeat", "call:grow", "call:advance", "call:advance-uncredited", "call:grow-uncredited", "call:repeat-uncredited", "call:advance-empty", "call:first-round0-uncredited", "call:first-round0", "disabled:gap", "disabled:shrink", "disabled:mixed-days"} {
-		c.Require(c.OutcomeCount(o) > 0, "outcome %s never reached", o)
+	if !c.Expired("bfs") {
+		c.Require(states > int64(40*len(all)) && trans > int64(300*len(all)), "vacuous BFS: %d states %d transitions for %d fixtures", states, trans, len(all))
+		for _, o := range []string{"call:stale-noop", "call:repeat", "call:grow", "call:advance", "call:advance-uncredited", "call:grow-uncredited", "call:repeat-uncredited", "call:advance-empty", "call:first-round0-uncredited", "call:first-round0", "disabled:gap", "disabled:shrink", "disabled:mixed-days",
+			"call:grow:new-at-front", "call:grow:new-in-middle", "call:grow:new-at-both-ends", "call:grow:permuted", "call:repeat:permuted"} {
+			c.Require(c.OutcomeCount(o) > 0, "outcome %s never reached", o)
+		}
 	}
 
 	// crash part
